@@ -23,7 +23,7 @@ func c19RandStr(g *srcGen, max int) string {
 var c19TreeExtras = []string{
 	"<div><!-- c --><p>a <b>b</b> <i>c</i>  d</p></div>", "<p>  lead <span> x </span> <em>y</em>tail  </p>", "<div>  text  <p></p><br><img src=\"a.png\"></div>",
 	"<span><i>x</i></span>", "<ul>\n  <li>one</li>\n  <li><a href=\"#\">two</a> </li>\n</ul>", "<div><span>a</span> <span>b</span></div>", "<section><h2>T <small>s</small></h2><div><p>x</p>y</div></section>",
-	"<p><b> </b></p>", "<div> </div>", "<button><span>x</span><div>y</div></button>", "<label>Name <input name=\"n\"></label>", "<pre>\n\nx <b>\ny</b></pre>",
+	"<script>if (a < b && c > d) { go(); }</script>", "<div><style>ul > li { margin: 0 }</style></div>", "<p><b> </b></p>", "<div> </div>", "<button><span>x</span><div>y</div></button>", "<label>Name <input name=\"n\"></label>", "<pre>\n\nx <b>\ny</b></pre>",
 	"<script></script><style>\n\n  a{}\n\n</style><script>\n   x\n     y\n</script>", "<p>a<!-- c -->b</p>", "<td>cell <b>b</b></td>", "<dl><dt>t</dt><dd>d <code>c</code></dd></dl>",
 	"<div>{{ a < b }} &amp; <b>{{ x }}</b></div>", "<p>\u00a0x\u00a0</p>", "<my-tag><span>x</span></my-tag>", "<a href=\"x\"><div>block in inline</div></a>",
 }
